@@ -243,3 +243,36 @@ Lemma update_keeps_bucket : forall l d now next,
 Proof.
   intros l d now next Hg Hr. unfold update_limiter. apply N.eqb_neq in Hg. rewrite Hg, Hr, N.eqb_refl. reflexivity.
 Qed.
+
+(* ------------------------------------------------------------------ eviction forgets the node identity *)
+Lemma aget_aremove_same : forall {V} (m : list (N * V)) k, aget k (aremove k m) = None.
+Proof.
+  induction m as [|[k0 v] m IH]; intros k; simpl; [reflexivity|].
+  destruct (k0 =? k) eqn:E; simpl; [apply IH | rewrite E; apply IH].
+Qed.
+
+Lemma aget_aremove_none : forall {V} (m : list (N * V)) k k', aget k m = None -> aget k (aremove k' m) = None.
+Proof.
+  induction m as [|[k0 v] m IH]; intros k k' H; simpl in *; [reflexivity|].
+  destruct (k0 =? k) eqn:E; [discriminate|]. destruct (k0 =? k'); simpl; [|rewrite E]; apply IH; exact H.
+Qed.
+
+Lemma fold_remove_keeps_none : forall l s a, aget a (h_nodes s) = None -> aget a (h_nodes (fold_left remove_addr l s)) = None.
+Proof.
+  induction l as [|b l IH]; intros s a H; simpl; [exact H|]. apply IH. simpl. apply aget_aremove_none. exact H.
+Qed.
+
+Lemma fold_remove_forgets : forall l s a, In a l -> aget a (h_nodes (fold_left remove_addr l s)) = None.
+Proof.
+  induction l as [|b l IH]; intros s a H; simpl in *; [contradiction|].
+  destruct H as [H|H].
+  - subst b. apply fold_remove_keeps_none. simpl. apply aget_aremove_same.
+  - apply IH. exact H.
+Qed.
+
+(* the addresses evicted by shrink (the oldest ones beyond MaxAddrs) have no node identity afterwards, so the
+   next request from them is decided without node hint *)
+Lemma shrink_forgets_node : forall s maxaddrs now a,
+  In a (firstn (length (h_queue s) - N.to_nat maxaddrs) (h_queue s)) ->
+  aget a (h_nodes (fst (step s (OShrink maxaddrs) now))) = None.
+Proof. intros. cbn [step fst]. apply fold_remove_forgets. assumption. Qed.
